@@ -1,14 +1,19 @@
 """C06 - destructors and defers run exactly once, LIFO, on every scope-exit path.
 
-Theorems: coq/C06/Properties_C06.v (the Mech model of the two cleanup stacks - as repaired by the fix
-commits 52ea7be, 605aa41, c388113 - refines the structural Spec for ALL skeleton programs; both stacks
-restored by every statement and call; defers before destructors on every exit; at-most-once on every
-prefix; the Spec is LIFO/exactly-once).
-Tie: skeleton programs (objects, defers, blocks, if/else, loops with break/continue, calls, returns)
-printed as Cb programs with tracing constructors/destructors/defers and run on the real `main`
-(hook CB_VERIF_STACKS) vs the extracted Mech model: stdout transcript, every call-imbalance line and
-the final stack depths must agree for every program; since Mech = Spec is proved, every program is
-also a direct test of the property.
+Theorems: coq/C06/Properties_C06.v (the Mech model of the two cleanup stacks AND of the name-keyed
+destructor bookkeeping - (variable name, struct type) entries, find_variable through all scopes,
+destructor_called flag in the slot - refines the structural Spec on object identities for ALL skeleton
+programs without a re-declared live name; for ALL programs, whatever their names: both stacks and every
+variable scope of the caller restored by every statement and call, at-most-once on every prefix; the Spec
+is LIFO/exactly-once; the programs on which the current code loses an object are refuted theorems).
+Tie: skeleton programs (objects of three struct types whose variable names come from a TINY pool, so that
+the same name is live at once in caller and callee, in every level of a recursion, in sibling and nested
+blocks, in successive loop iterations; defers; blocks, if/else, loops with break/continue; calls of any
+function incl. recursion with a depth parameter; returns) printed as Cb programs with tracing
+constructors/destructors/defers and run on the real `main` (hook CB_VERIF_STACKS) vs the extracted Mech
+model: stdout transcript, every call-imbalance line and the final stack depths must agree for EVERY
+program (nothing is avoided: the Mech reproduces the known name-collision defects of the code); on the
+programs of the proved class Mech = Spec, so each of them is also a direct test of the property.
 """
 import itertools
 import json
@@ -23,21 +28,32 @@ PROP = "C06"
 LEVEL = "proof"
 META = {
     "category": "proof",
-    "technique": "Coq refinement proof (two-stack cleanup machine = structural scope-exit semantics, all programs; "
-                 "at-most-once invariant) + extracted-model differential run against the real interpreter",
+    "technique": "Coq refinement proof (two-stack cleanup machine with name-keyed destructor entries, variable scopes and "
+                 "destructor_called flags = structural scope-exit semantics on object identities; frame-isolation and "
+                 "at-most-once invariants for all programs) + extracted-model differential run against the real interpreter",
     "text": "Machine-checked theorems about a function-by-function Gallina model of cleanup.cpp / statement_list_executor.cpp / "
-            "control_flow_executor.cpp / return.cpp / call_impl.cpp (defer_stacks_, destructor_stacks_) over a skeleton language "
-            "(objects, defers, blocks, if/else, loops with break/continue, calls, return): for ALL programs the machine emits exactly "
-            "the structural cleanup order of the property (defers LIFO then destructors LIFO at every scope exit by any path, inner "
-            "scopes first, a call's cleanup a function of the callee alone), restores both stacks after every statement and call, "
-            "destroys/runs nothing more often than constructed/registered on any prefix; the structural Spec is well bracketed "
-            "(exactly once, LIFO). The model is tied to the code on every run: exhaustive small skeletons and random deeper ones are "
-            "printed as Cb programs and executed on the real binary; transcript, CB_VERIF_STACKS imbalance lines and final depths must "
-            "equal the extracted model (= Spec) for every program.",
+            "control_flow_executor.cpp / return.cpp / call_impl.cpp / interpreter.cpp (call_destructor, register_destructor_call) / "
+            "variables/manager.cpp (find_variable) / variables/declaration.cpp (defer_stacks_, destructor_stacks_ holding (variable "
+            "name, struct type), scope_stack, Variable::destructor_called) over a skeleton language (objects of three struct types - one "
+            "with a struct member that has its own destructor - declared under arbitrary variable names, defers, blocks, if/else, loops "
+            "with break/continue, calls of any function incl. recursion with a depth parameter, return). For ALL programs: every "
+            "statement and call restores both stacks and every variable scope of the caller exactly (leaving a callee never runs or "
+            "disturbs cleanup of its caller, whatever names collide), a complete run ends balanced without an imbalance line, nothing "
+            "is destroyed/run more often than constructed/registered on any prefix. For all programs in which no function body "
+            "re-declares a name that is live in the same activation (the same name may be live in caller and callee, in all levels of "
+            "a recursion, in sibling blocks and successive iterations): the machine emits exactly the structural cleanup order of the "
+            "property (defers LIFO then destructors LIFO at every scope exit by any path, inner scopes first, each object destroyed "
+            "exactly once by the destructor of its own type, a call's cleanup a function of the callee alone). Outside that class the "
+            "current code loses objects (refuted theorems = known findings). The model is tied to the code on every run: exhaustive "
+            "small skeletons under three naming disciplines, an exhaustive family of recursive callees sharing one variable name with "
+            "their caller, and random deeper ones with names from a pool of 1-3 are printed as Cb programs and executed on the real "
+            "binary; transcript, CB_VERIF_STACKS imbalance lines and final depths must equal the extracted model for every program.",
     "note": "Trusted: Coq kernel, no axioms (Print Assumptions: closed; coqchk in the thorough tier); extraction via "
             "ExtrOcamlBasic+ExtrOcamlString; the model is hand-written and tied by differential testing only; the Python printer of "
             "skeletons to Cb text; return operands are constants (the documented order `defers, destructors, then evaluation of the "
-            "return operand` is checked by one fixed program); if/loop bodies are always braced; no recursion; yield/async not modelled. "
+            "return operand` is checked by one fixed program); if/loop bodies are always braced (unbraced bodies, objects/defers inside "
+            "constructor and defer bodies: fixed text programs only); struct parameters, copies, yield/async not modelled; the W "
+            "member-flag rule of the model (obj_slots) is inferred from the binary's behaviour. "
             "coq/C06/Pinned.v keeps the machine of the code before the fix commits (findings #11, #43, #44) for the record.",
 }
 PRELUDE = """struct R { int id; };
@@ -45,11 +61,23 @@ impl R {
     self(int k) { self.id = k; println("ctor", k); }
     ~self() { println("dtor", self.id); }
 }
+struct Q_t { int id; };
+impl Q_t {
+    self(int k) { self.id = k; println("qctor", k); }
+    ~self() { println("qdtor", self.id); }
+}
+typedef R RA;
+struct W { int id; R r; };
+impl W {
+    self(int k) { self.r.id = k + 50; println("ctor", k + 50); self.id = k; println("wctor", k); }
+    ~self() { println("wdtor", self.id); }
+}
 """
 
 # ------------------------------------------------------------------ skeletons
-# stmt: ("o",k) ("d",k) ("m",k) ("B",[..]) ("I",c,[..],[..]) c in "T","F",int  ("L",n,[..]) ("c",f) ("r",) ("b",) ("k",)
-# program: list of function bodies, function 0 = main
+# stmt: ("o",x,T,k) object of struct T in "RQW" in variable v<x>, identity k + 100 * n   ("d",k) ("m",k) ("B",[..])
+#       ("I",c,[..],[..]) c in "T","F","D" (n > 0),int   ("L",n,[..]) ("c",f) = f<f>(pred n), printed f<f>((n - 1) * (n > 0))   ("r",) ("b",) ("k",)
+# program: (n0, [function bodies]), function 0 = main, n0 = main's depth value
 
 
 def ser_block(b):
@@ -58,7 +86,9 @@ def ser_block(b):
 
 def ser_stmt(s):
     t = s[0]
-    if t in "odmc":
+    if t == "o":
+        return "o%s%d:%d" % (s[2], s[1], s[3])
+    if t in "dmc":
         return "%s%d" % (t, s[1])
     if t in "rbk":
         return t
@@ -72,7 +102,8 @@ def ser_stmt(s):
 
 
 def ser_prog(p):
-    return " | ".join(ser_block(b) for b in p)
+    n0, fs = p
+    return "N%d " % n0 + " | ".join(ser_block(b) for b in fs)
 
 
 def parse_prog(text):
@@ -87,12 +118,19 @@ def parse_prog(text):
             if t == "{":
                 b, i = items(toks, i + 1, True)
                 out.append(("B", b))
-            elif t[0] in "odmc":
+            elif t[0] == "o":
+                if t[1] in "RQW":
+                    x, k = t[2:].split(":")
+                    out.append(("o", int(x), t[1], int(k)))
+                else:                                   # old corpus form o<k>: unique name, type R
+                    out.append(("o", int(t[1:]), "R", int(t[1:])))
+                i += 1
+            elif t[0] in "dmc":
                 out.append((t[0], int(t[1:]))); i += 1
             elif t in "rbk":
                 out.append((t,)); i += 1
             elif t[0] == "?":
-                c = t[1:] if t[1:] in ("T", "F") else int(t[1:])
+                c = t[1:] if t[1:] in ("T", "F", "D") else int(t[1:])
                 assert toks[i + 1] == "{"
                 b1, i = items(toks, i + 2, True)
                 assert toks[i] == "{"
@@ -107,15 +145,21 @@ def parse_prog(text):
         if closing:
             raise ValueError("missing }")
         return out, i
-    return [items(f.split(), 0, False)[0] for f in text.split("|")]
+    text = text.strip()
+    n0 = 0
+    if text.startswith("N"):
+        first, _, text = text.partition(" ")
+        n0 = int(first[1:])
+    return (n0, [items(f.split(), 0, False)[0] for f in text.split("|")])
 
 
 def to_cb(p, sty=0):
     """Print a skeleton program as Cb text. `sty` selects surface variations the model abstracts from:
-    for/while loops, void/int functions, call as statement or as initialiser."""
+    for/while loops, void/int functions, call as statement or as initialiser, R declared through a typedef alias."""
+    n0, fs = p
     rs = random.Random(sty)
     site = [0]
-    fn_int = [rs.random() < 0.5 if sty else False for _ in p]
+    fn_int = [rs.random() < 0.5 if sty else False for _ in fs]
     out = [PRELUDE]
 
     def cond(c, loopvar):
@@ -123,6 +167,8 @@ def to_cb(p, sty=0):
             return "1 == 1"
         if c == "F":
             return "1 == 0"
+        if c == "D":
+            return "n > 0"
         if loopvar is None:
             return "0 == 1"
         return "%s == %d" % (loopvar, c)
@@ -133,10 +179,15 @@ def to_cb(p, sty=0):
         for s in b:
             t = s[0]
             if t == "o":
-                ls.append("%sR o%d(%d);" % (pad, s[1], s[1]))
+                # surface forms of the struct type the model abstracts from: Q's real name has an underscore (type-name
+                # unmangling in call_destructor), an R object may be declared through the typedef alias RA (resolve_typedef)
+                tn = {"R": "R", "Q": "Q_t", "W": "W"}[s[2]]
+                if sty and s[2] == "R" and rs.random() < 0.3:
+                    tn = "RA"
+                ls.append("%s%s v%d(%d + 100 * n);" % (pad, tn, s[1], s[3]))
             elif t == "d":
-                ls.append('%sprintln("reg", %d);' % (pad, s[1]))
-                ls.append('%sdefer println("defer", %d);' % (pad, s[1]))
+                ls.append('%sprintln("reg", %d + 100 * n);' % (pad, s[1]))
+                ls.append('%sdefer println("defer", %d + 100 * n);' % (pad, s[1]))
             elif t == "m":
                 ls.append('%sprintln("mark", %d);' % (pad, s[1]))
             elif t == "B":
@@ -167,10 +218,10 @@ def to_cb(p, sty=0):
             elif t == "c":
                 site[0] += 1
                 g = s[1]
-                if g < len(p) and fn_int[g] and rs.random() < 0.5:
-                    ls.append("%sint x%d = f%d();" % (pad, site[0], g))
+                if g < len(fs) and fn_int[g] and rs.random() < 0.5:
+                    ls.append("%sint r%d = f%d((n - 1) * (n > 0));" % (pad, site[0], g))
                 else:
-                    ls.append("%sf%d();" % (pad, g))
+                    ls.append("%sf%d((n - 1) * (n > 0));" % (pad, g))
             elif t == "r":
                 ls.append(pad + ("return 0;" if fn_int[fi] else "return;"))
             elif t == "b":
@@ -179,11 +230,14 @@ def to_cb(p, sty=0):
                 ls.append(pad + "continue;")
         return ls
 
-    for fi in range(len(p) - 1, -1, -1):
-        name = "main" if fi == 0 else "f%d" % fi
-        out.append("%s %s() {" % ("int" if fn_int[fi] else "void", name))
-        out += block(p[fi], 1, fi, None)
+    for fi in range(len(fs) - 1, 0, -1):        # prototypes are not needed: calls resolve at run time
+        out.append("%s f%d(int n) {" % ("int" if fn_int[fi] else "void", fi))
+        out += block(fs[fi], 1, fi, None)
         out.append("}")
+    out.append("%s main() {" % ("int" if fn_int[0] else "void"))
+    out.append("    int n = %d;" % n0)
+    out += block(fs[0], 1, 0, None)
+    out.append("}")
     return "\n".join(out) + "\n"
 
 
@@ -223,7 +277,8 @@ def _obs(ok, d, t, sc, evtext):
 
 def run_models(progs):
     """Extracted model on many programs: the Mech and Spec observations, the labels of the formerly
-    defective shapes, and (diagnosis only) the machine of the code before the fix commits."""
+    defective shapes, (diagnosis only) the machine of the code before the fix commits, and wf_prog (is the
+    program in the class covered by theorem cleanup_mech_refines_spec_partial)."""
     lines = common.run_model(PROP, "run", [ser_prog(p) for p in progs], timeout=1800)
     if len(lines) != len(progs):
         raise RuntimeError("model result count mismatch %d vs %d" % (len(lines), len(progs)))
@@ -236,6 +291,7 @@ def run_models(progs):
             "spec": {"cls": "ok" if f[5] == "1" else "error", "out": [x for x in f[6].split(";") if x]},
             "shapes": {"#11": f[7] == "1", "#43": f[8] == "1", "#44": f[9] == "1"},
             "pinned": _obs(f[10], f[11], f[12], f[13], f[14]),
+            "wf": f[15] == "1",
         })
     return res
 
@@ -260,25 +316,29 @@ def conforming(m):
 
 
 # ------------------------------------------------------------------ generators
-def enum_blocks(budget, depth, in_loop, can_call):
+RCALL = ("I", "D", [("c", 1)], [])       # if (n > 0) { f1(n - 1); }  - the guarded recursive call of f1
+
+
+def enum_blocks(budget, depth, in_loop, call_leaf):
     """All statement lists with at most `budget` items and nesting depth <= depth; no dead code after an
-    exit statement; ids are placeholders (renumbered later). Yields (block, items_used, has_call)."""
+    exit statement; ids are placeholders (renumbered later). call_leaf: None, ("c", 1) or RCALL.
+    Yields (block, items_used, has_call)."""
     yield [], 0, False
     if budget <= 0:
         return
-    leaves = [("o", 0), ("d", 0)]
-    if can_call:
-        leaves.append(("c", 1))
+    leaves = [("o",), ("d", 0)]
+    if call_leaf:
+        leaves.append(call_leaf)
     exits = [("r",)] + ([("b",), ("k",)] if in_loop else [])
     # first statement, then the rest
     for s in leaves:
-        for rest, used, hc in enum_blocks(budget - 1, depth, in_loop, can_call):
-            yield [s] + rest, used + 1, hc or s[0] == "c"
+        for rest, used, hc in enum_blocks(budget - 1, depth, in_loop, call_leaf):
+            yield [s] + rest, used + 1, hc or s is call_leaf
     for s in exits:
         yield [s], 1, False
     if depth > 0:
         for kind in ("B", "I", "L"):
-            for inner, u1, hc1 in enum_blocks(budget - 1, depth - 1, in_loop or kind == "L", can_call):
+            for inner, u1, hc1 in enum_blocks(budget - 1, depth - 1, in_loop or kind == "L", call_leaf):
                 if not inner and kind != "B":
                     continue
                 if kind == "B":
@@ -287,22 +347,43 @@ def enum_blocks(budget, depth, in_loop, can_call):
                     s = ("I", 1 if in_loop else "T", inner, [])
                 else:
                     s = ("L", 2, inner)
-                for rest, u2, hc2 in enum_blocks(budget - 1 - u1, depth, in_loop, can_call):
+                for rest, u2, hc2 in enum_blocks(budget - 1 - u1, depth, in_loop, call_leaf):
                     yield [s] + rest, 1 + u1 + u2, hc1 or hc2
 
 
-def renumber(p):
-    """Give every object/defer a unique id (also the variable name), add a mark after every container
-    and call so that the time of each cleanup is observable."""
+NAMING = ("unique", "one-name", "pool2-types")
+
+
+def renumber(fs, naming="unique", types="R"):
+    """Give every object/defer its own identity constant k (1..49), choose the VARIABLE NAME by `naming`
+    (unique: v<k>; one-name: every object of the program is called v0; pool2-types: names alternate
+    over v0/v1 and struct types cycle through `types`), add a mark after every container and call so
+    that the time of each cleanup is observable."""
     ctr = [0]
+    nobj = [0]
+
+    def fresh():
+        ctr[0] += 1
+        return (ctr[0] - 1) % 49 + 1
 
     def blk(b):
         out = []
         for s in b:
             t = s[0]
-            if t in "od":
-                ctr[0] += 1
-                out.append((t, ctr[0]))
+            if t == "o":
+                k = fresh()
+                j = nobj[0]
+                nobj[0] += 1
+                if len(s) == 4 and naming == "keep":
+                    out.append(("o", s[1], s[2], k))
+                elif naming == "unique":
+                    out.append(("o", k, types[j % len(types)], k))
+                elif naming == "one-name":
+                    out.append(("o", 0, types[j % len(types)], k))
+                else:
+                    out.append(("o", j % 2, types[j % len(types)], k))
+            elif t == "d":
+                out.append(("d", fresh()))
             elif t == "B":
                 out.append(("B", blk(s[1])))
             elif t == "I":
@@ -312,63 +393,144 @@ def renumber(p):
             else:
                 out.append(s)
             if t in "BILc":
-                ctr[0] += 1
-                out.append(("m", ctr[0]))
+                out.append(("m", fresh()))
         return out
-    return [blk(b) for b in p]
+    return [blk(b) for b in fs]
 
 
 def exhaustive_programs(budget, depth):
-    """main (may call f1) x f1 (no calls), total items <= budget."""
-    for mb, used, hc in enum_blocks(budget, depth, False, True):
+    """main (may call f1) x f1 (no calls), total items <= budget; the k-th program uses naming discipline
+    k mod 3 (unique names / one name for every object / two names and three struct types)."""
+    k = 0
+    for mb, used, hc in enum_blocks(budget, depth, False, ("c", 1)):
         if not hc:
-            yield renumber([mb])
+            yield (0, renumber([mb], NAMING[k % 3], "RQW")); k += 1
         else:
-            for fb, u2, _ in enum_blocks(budget - used, depth - 1, False, False):
-                yield renumber([mb, fb])
+            for fb, u2, _ in enum_blocks(budget - used, depth - 1, False, None):
+                yield (0, renumber([mb, fb], NAMING[k % 3], "RQW")); k += 1
+
+
+def recursive_programs(budget, depth):
+    """main = `R v0(..); defer; f1(n-1); mark` with n0 = 2, f1 = every body of <= budget items over {object, defer,
+    guarded recursive call of f1, return, block, if, loop(2) with break/continue}: caller, callee and all
+    recursion levels use the SAME variable name v0 - once with the same struct type R everywhere, once with Q
+    in the callee."""
+    def has_obj(b):
+        return any(s[0] == "o" or (s[0] in "BL" and has_obj(s[-1])) or (s[0] == "I" and (has_obj(s[2]) or has_obj(s[3]))) for s in b)
+    for fb, used, hc in enum_blocks(budget, depth, False, RCALL):
+        for types in (("R", "Q") if has_obj(fb) else ("R",)):
+            f1 = renumber([[("o", 0, "R", 0), ("d", 0), ("c", 1)], fb], "one-name", types)
+            main = [("o", 0, "R", f1[0][0][3])] + f1[0][1:]
+            yield (2, [main, f1[1]])
+
+
+BIG = 10 ** 9
+
+
+def cost(p, limit=BIG):
+    """Upper bound of the number of statements a run executes (early exits ignored); BIG for unguarded
+    recursion."""
+    n0, fs = p
+    memo = {}
+    onstack = set()
+
+    def fn(g, n):
+        if g >= len(fs):
+            return 1
+        key = (g, max(n, -1))
+        if key in memo:
+            return memo[key]
+        if key in onstack:
+            return BIG
+        onstack.add(key)
+        c = blk(fs[g], n)
+        onstack.discard(key)
+        memo[key] = min(c, BIG)
+        return memo[key]
+
+    def blk(b, n):
+        c = 0
+        for s in b:
+            t = s[0]
+            if t == "B":
+                c += 1 + blk(s[1], n)
+            elif t == "I":
+                if s[1] == "D":
+                    c += 1 + (blk(s[2], n) if n > 0 else blk(s[3], n))
+                else:
+                    c += 1 + blk(s[2], n) + blk(s[3], n)
+            elif t == "L":
+                c += 1 + s[1] * (1 + blk(s[2], n))
+            elif t == "c":
+                c += 1 + fn(s[1], n - 1)
+            else:
+                c += 1
+            if c >= BIG:
+                return BIG
+        return c
+    return blk(fs[0], n0)
+
+
+MAXCOST = 500
 
 
 def random_program(rng, maxdepth=4, nfuncs=None, stress=False):
-    """Random skeleton: up to 4 functions (function i calls only j > i), nesting to `maxdepth`.
-    Nothing is avoided. stress=True raises the share of the shapes that used to be defective (scopes
-    that own both objects and defers, returns after them, returns from inside loops)."""
-    nf = nfuncs or rng.choice([1, 2, 2, 3, 3, 4])
-    p_ret = 0.16 if stress else 0.10
+    """Random skeleton: up to 4 functions with an arbitrary call graph (a call of a function with a lower or
+    the same index - recursion - is guarded by `n > 0`), nesting to `maxdepth`, variable names from a pool
+    of 1-3, struct types R/Q/W, main's depth value 1-3. Nothing is avoided. stress=True raises the share of
+    the shapes that used to be defective (scopes that own both objects and defers, returns after them,
+    returns from inside loops). Programs whose run would execute more than MAXCOST statements are redrawn."""
+    for attempt in range(50):
+        nf = nfuncs or rng.choice([1, 2, 2, 3, 3, 4])
+        pool = rng.choice([1, 1, 2, 2, 3])
+        tys = rng.choice(["R", "RQ", "RQ", "RRQW", "RQW"])
+        n0 = rng.choice([1, 2, 2, 3])
+        p_ret = 0.16 if stress else 0.10
 
-    def blk(fi, depth, in_loop, top):
-        out = []
-        n = rng.choice([0, 1, 1, 2, 2, 3, 3, 4]) if not top else rng.choice([1, 2, 3, 3, 4, 5])
-        if stress:
-            n += 1
-        for j in range(n):
-            r = rng.random()
-            if r < 0.34:
-                out.append((rng.choice("od"), 0))
-            elif r < 0.44 and fi + 1 < nf:
-                out.append(("c", rng.randint(fi + 1, nf - 1)))
-            elif r < 0.44 + p_ret and (j > 0 or not stress):
-                out.append(("r",)); break
-            elif r < 0.62 + (p_ret - 0.10) and in_loop:
-                out.append((rng.choice("bk"),)); break
-            elif depth > 0:
-                k = rng.choice("BIIL" if not stress else "BIILL")
-                if k == "B":
-                    out.append(("B", blk(fi, depth - 1, in_loop, False)))
-                elif k == "I":
-                    c = rng.choice(["T", "T", "F"] + ([0, 1, 1, 2] if in_loop else []))
-                    els = blk(fi, depth - 1, in_loop, False) if rng.random() < 0.4 else []
-                    out.append(("I", c, blk(fi, depth - 1, in_loop, False), els))
-                else:
-                    out.append(("L", rng.choice([1, 2, 2, 3]), blk(fi, depth - 1, True, False)))
-        return out
-    bodies = [blk(fi, maxdepth - (1 if fi else 0), False, True) for fi in range(nf)]
-    # every function is called from a lower one (top level, before any exit statement)
-    for fi in range(1, nf):
-        if not any(fi in _calls(b) for b in bodies[:fi]):
-            host = bodies[rng.randint(0, fi - 1)]
-            lim = next((j for j, s in enumerate(host) if s[0] in "rbk"), len(host))
-            host.insert(rng.randint(0, lim), ("c", fi))
-    return renumber(bodies)
+        def blk(fi, depth, in_loop, top):
+            out = []
+            n = rng.choice([0, 1, 1, 2, 2, 3, 3, 4]) if not top else rng.choice([1, 2, 3, 3, 4, 5])
+            if stress:
+                n += 1
+            for j in range(n):
+                r = rng.random()
+                if r < 0.34:
+                    if rng.random() < 0.5:
+                        out.append(("o", rng.randrange(pool), rng.choice(tys), 0))
+                    else:
+                        out.append(("d", 0))
+                elif r < 0.44 and nf > 1:
+                    g = rng.randint(1, nf - 1)
+                    if g <= fi:
+                        out.append(("I", "D", [("c", g)], [("c", rng.randint(fi + 1, nf - 1))] if fi + 1 < nf and rng.random() < 0.3 else []))
+                    else:
+                        out.append(("c", g))
+                elif r < 0.44 + p_ret and (j > 0 or not stress):
+                    out.append(("r",)); break
+                elif r < 0.62 + (p_ret - 0.10) and in_loop:
+                    out.append((rng.choice("bk"),)); break
+                elif depth > 0:
+                    k = rng.choice("BIIL" if not stress else "BIILL")
+                    if k == "B":
+                        out.append(("B", blk(fi, depth - 1, in_loop, False)))
+                    elif k == "I":
+                        c = rng.choice(["T", "T", "F", "D"] + ([0, 1, 1, 2] if in_loop else []))
+                        els = blk(fi, depth - 1, in_loop, False) if rng.random() < 0.4 else []
+                        out.append(("I", c, blk(fi, depth - 1, in_loop, False), els))
+                    else:
+                        out.append(("L", rng.choice([1, 2, 2, 3]), blk(fi, depth - 1, True, False)))
+            return out
+        bodies = [blk(fi, maxdepth - (1 if fi else 0), False, True) for fi in range(nf)]
+        # every function is called from a lower one (top level, before any exit statement)
+        for fi in range(1, nf):
+            if not any(fi in _calls(b) for b in bodies[:fi]):
+                host = bodies[rng.randint(0, fi - 1)]
+                lim = next((j for j, s in enumerate(host) if s[0] in "rbk"), len(host))
+                host.insert(rng.randint(0, lim), ("c", fi))
+        p = (n0, renumber(bodies, "keep"))
+        if cost(p) <= MAXCOST:
+            return p
+    return (1, [[("o", 0, "R", 1), ("d", 2)]])
 
 
 # ------------------------------------------------------------------ shrinking
@@ -385,7 +547,7 @@ def _variants_block(b):
             yield b[:i] + s[2] + b[i + 1:]
             if s[3]:
                 yield b[:i] + [("I", s[1], s[2], [])] + b[i + 1:]
-            if s[1] not in ("T", "F"):
+            if s[1] not in ("T", "F", "D"):
                 yield b[:i] + [("I", "T", s[2], s[3])] + b[i + 1:]
             for v in _variants_block(s[2]):
                 yield b[:i] + [("I", s[1], v, s[3])] + b[i + 1:]
@@ -396,6 +558,8 @@ def _variants_block(b):
                 yield b[:i] + [("L", s[1] - 1, s[2])] + b[i + 1:]
             for v in _variants_block(s[2]):
                 yield b[:i] + [("L", s[1], v)] + b[i + 1:]
+        elif t == "o" and s[2] == "W":
+            yield b[:i] + [("o", s[1], "R", s[3])] + b[i + 1:]
 
 
 def _calls(b):
@@ -413,16 +577,21 @@ def _calls(b):
 
 
 def variants(p):
-    for fi in range(len(p)):
-        for v in _variants_block(p[fi]):
-            yield p[:fi] + [v] + p[fi + 1:]
+    n0, fs = p
+    for fi in range(len(fs)):
+        for v in _variants_block(fs[fi]):
+            q = (n0, fs[:fi] + [v] + fs[fi + 1:])
+            if cost(q) <= 4 * MAXCOST:
+                yield q
     # drop a trailing function nobody calls
-    if len(p) > 1 and (len(p) - 1) not in set().union(*[_calls(b) for b in p]):
-        yield p[:-1]
+    if len(fs) > 1 and (len(fs) - 1) not in set().union(*[_calls(b) for b in fs]):
+        yield (n0, fs[:-1])
+    if n0 > 0:
+        yield (n0 - 1, fs)
 
 
 def size(p):
-    return len(ser_prog(p).split())
+    return len(ser_prog(p).split()) + p[0]
 
 
 def shrink(p, sty, impl_dir, bad, budget=400):
@@ -462,6 +631,61 @@ void main() { f1(); println("mark", 10); }
 """
 DOC6_EXPECT = ["ctor 1", "reg 2", "defer 2", "dtor 1", "mark 9", "mark 10"]
 
+# constructs outside the skeleton language, one text program each with the transcript the property demands
+# (all of them hold on the current code): cleanup code paths the skeletons cannot reach
+EXTRA = [
+    ("unbraced-if-body-object", """void main() { if (1 == 1) R a(1); println("mark", 1); }
+""", ["ctor 1", "mark 1", "dtor 1"]),
+    ("constructor-body-owns-object-and-defer", """struct V { int id; };
+impl V { self(int k) { self.id = k; println("vctor", k); R a(7); defer println("defer", 5); println("mark", 4); }
+         ~self() { println("vdtor", self.id); } }
+void main() { R a(1); V b(2); println("mark", 9); }
+""", ["ctor 1", "vctor 2", "ctor 7", "mark 4", "defer 5", "dtor 7", "mark 9", "vdtor 2", "dtor 1"]),
+    ("defer-block-owns-object", """void main() { R a(1); defer { R b(2); println("mark", 2); } println("mark", 1); }
+""", ["ctor 1", "mark 1", "ctor 2", "mark 2", "dtor 2", "dtor 1"]),
+    ("destructor-body-with-defer-in-recursion", """struct V { int id; };
+impl V { self(int k) { self.id = k; println("vctor", k); }
+         ~self() { defer println("defer", 5); println("vdtor", self.id); println("mark", 4); } }
+void f(int n) { V a(0 + n); if (n > 0) { f(n - 1); } println("mark", n); }
+void main() { V a(9); f(1); }
+""", ["vctor 9", "vctor 1", "vctor 0", "mark 0", "vdtor 0", "mark 4", "defer 5", "mark 1", "vdtor 1", "mark 4", "defer 5",
+      "vdtor 9", "mark 4", "defer 5"]),
+    ("same-name-as-by-value-parameter-and-local", """void g(R a, int n) { println("mark", a.id); if (n > 0) { R b(2); g(b, n - 1); } }
+void f(R a) { R b(3); println("mark", a.id); g(b, 1); }
+void main() { R a(1); f(a); println("mark", 9); }
+""", ["ctor 1", "ctor 3", "mark 1", "mark 3", "ctor 2", "mark 2", "dtor 2", "dtor 3", "mark 9", "dtor 1"]),
+    ("interface-method-recursion-same-names", """interface Go { void go(int n); };
+struct S { int id; };
+impl Go for S { void go(int n) { R a(5 + 100 * n); defer println("defer", 5 + 100 * n); if (n > 0) { self.go(n - 1); } println("mark", n);
+                                 if (n == 0) { return; } println("mark", 50 + n); } }
+void main() { R a(1); S s; s.id = 3; s.go(1); println("mark", 9); }
+""", ["ctor 1", "ctor 105", "ctor 5", "mark 0", "defer 5", "dtor 5", "mark 1", "mark 51", "defer 105", "dtor 105", "mark 9", "dtor 1"]),
+    ("switch-case-bodies", """void main() { R a(1); int x = 2; switch (x) { case (1) { R a(2); } case (2) { R b(3); defer println("defer", 3); println("mark", 3); }
+              else { println("mark", 4); } } println("mark", 9); }
+""", ["ctor 1", "ctor 3", "mark 3", "defer 3", "dtor 3", "mark 9", "dtor 1"]),
+    ("else-if-chain-with-return", """void f(int n) { R a(0 + n); if (n == 0) { R b(10); return; } else if (n == 1) { R b(11); defer println("defer", 11); } else { R b(12); }
+                 println("mark", n); }
+void main() { f(0); f(1); f(2); }
+""", ["ctor 0", "ctor 10", "dtor 10", "dtor 0", "ctor 1", "ctor 11", "defer 11", "dtor 11", "mark 1", "dtor 1", "ctor 2", "ctor 12", "dtor 12",
+      "mark 2", "dtor 2"]),
+    ("member-objects-in-caller-and-callee", """void f(int n) { W a(1 + 100 * n); if (n > 0) { f(n - 1); } println("mark", n); }
+void main() { W a(7); f(1); println("mark", 9); }
+""", ["ctor 57", "wctor 7", "ctor 151", "wctor 101", "ctor 51", "wctor 1", "mark 0", "wdtor 1", "dtor 51", "mark 1", "wdtor 101",
+      "dtor 151", "mark 9", "wdtor 7", "dtor 57"]),
+]
+
+
+def run_text(impl, cb):
+    rc, o, e = common.run_cb(impl, PRELUDE + cb, env={"CB_VERIF_STACKS": "1"}, timeout=20)
+    m = _STK.search(e)
+    return {"rc": rc, "out": [l for l in o.split("\n") if l], "imb": "call-imbalance" in e,
+            "depths": tuple(int(x) for x in m.groups()) if m else None,
+            "stderr": [l for l in e.split("\n") if l and not l.startswith("CBV ")][:3]}
+
+
+def text_ok(r, expected):
+    return r["rc"] == 0 and r["out"] == expected and not r["imb"] and r["depths"] == (0, 1, 1)
+
 
 def load_cases(path):
     if not os.path.exists(path):
@@ -470,6 +694,39 @@ def load_cases(path):
 
 
 # ------------------------------------------------------------------ main
+def names_live_across_frames(p):
+    """Static label for the input histogram: some variable name is declared in two different functions, or
+    in a function that can be active more than once (it has a guarded recursive call)."""
+    n0, fs = p
+
+    def objs(b, acc):
+        for s in b:
+            if s[0] == "o":
+                acc.add((s[1], s[2]))
+            elif s[0] == "B":
+                objs(s[1], acc)
+            elif s[0] == "I":
+                objs(s[2], acc); objs(s[3], acc)
+            elif s[0] == "L":
+                objs(s[2], acc)
+        return acc
+    per = [objs(b, set()) for b in fs]
+    names = [set(x for x, _ in o) for o in per]
+    same_type = diff_type = rec = False
+    for i in range(len(fs)):
+        if names[i] and any(g <= i for g in _calls(fs[i]) if g > 0):
+            rec = True
+        for j in range(i + 1, len(fs)):
+            for x in names[i] & names[j]:
+                ti = set(t for y, t in per[i] if y == x)
+                tj = set(t for y, t in per[j] if y == x)
+                if ti & tj:
+                    same_type = True
+                if ti != tj or len(ti) > 1:
+                    diff_type = True
+    return same_type, diff_type, rec
+
+
 def run(rep):
     seed, tier = rep.seed, rep.tier
     thorough = tier == "thorough"
@@ -494,19 +751,25 @@ def run(rep):
     cases, origin = [], []
     for p, sty in load_cases(os.path.join(common.VERIF, "corpus", "c06.json")):
         cases.append((p, sty)); origin.append("corpus")
-    # (1) exhaustive small skeletons: main (+ one callee), every exit kind at every position
+    # (1) exhaustive small skeletons: main (+ one callee), every exit kind at every position, three naming disciplines
     budget, depth = (5, 3) if thorough else (4, 3)
     n_exh = 0
     for k, p in enumerate(exhaustive_programs(budget, depth)):
         cases.append((p, 0 if k % 3 == 0 else 1 + (k * 7919 + seed) % 1000)); origin.append("exhaustive"); n_exh += 1
-    # (2) random deeper skeletons; nothing is avoided, half of them stress the formerly defective shapes
+    # (2) exhaustive recursive callees sharing ONE variable name with their caller (same / other struct type)
+    rbudget, rdepth = (4, 2) if thorough else (3, 2)
+    n_rec = 0
+    for k, p in enumerate(recursive_programs(rbudget, rdepth)):
+        cases.append((p, 0 if k % 2 == 0 else 1 + (k * 104729 + seed) % 1000)); origin.append("exhaustive-recursion"); n_rec += 1
+    # (3) random deeper skeletons: arbitrary call graph incl. recursion, names from a pool of 1-3, three struct types;
+    #     nothing is avoided, half of them stress the formerly defective shapes
     n_rand = 150000 if thorough else 3000
     for k in range(n_rand):
         rng = rng_for(seed, "c06-rand", k)
         stress = k % 2 == 0
         cases.append((random_program(rng, rng.choice([3, 4, 4]), stress=stress), rng.randint(1, 10 ** 6)))
         origin.append("random-stress" if stress else "random")
-    # (3) break/continue escaping a function (run-time error or caught by a caller's loop)
+    # (4) break/continue escaping a function (run-time error or caught by a caller's loop)
     for t in NONWF:
         cases.append((parse_prog(t), 0)); origin.append("escaping-break")
 
@@ -518,6 +781,8 @@ def run(rep):
     distinct = set()
     nontrivial = 0
     n_old_defect = 0
+    n_wf = n_nonconf = 0
+    n_same = n_diff = n_rec_names = 0
     bad, inconsistent = [], []
     for (p, sty), o, m, i in zip(cases, origin, models, impls):
         hist[o] = hist.get(o, 0) + 1
@@ -533,30 +798,46 @@ def run(rep):
         shape_hist[lab] = shape_hist.get(lab, 0) + 1
         if m["pinned"] != m["mech"]:
             n_old_defect += 1
-        if not conforming(m):          # contradicts theorem cleanup_mech_refines_spec: extraction/driver trouble
-            inconsistent.append((p, sty, m))
+        a, b, c = names_live_across_frames(p)
+        n_same += a; n_diff += b; n_rec_names += c
+        if m["wf"]:
+            n_wf += 1
+            if not conforming(m):      # contradicts theorem cleanup_mech_refines_spec_partial: extraction/driver trouble
+                inconsistent.append((p, sty, m))
+        elif not conforming(m):
+            n_nonconf += 1             # the model itself shows one of the known name-collision defects here
         if not impl_matches_mech(i, m["mech"]):
             bad.append((p, sty, o, m, i))
 
     rep.coverage.update({
         "evaluations": len(cases), "distinct_nontrivial": nontrivial,
-        "rule": "real interpreter (main, hook CB_VERIF_STACKS) vs extracted Coq Mech model (= Spec, theorem cleanup_mech_refines_spec) on the "
-                "same skeleton program: stdout transcript, every CBV call-imbalance line and the final CBV stacks depths must be equal; "
-                "distinct = distinct skeletons; non-trivial = the transcript contains at least one constructor/destructor/defer event",
+        "rule": "real interpreter (main, hook CB_VERIF_STACKS) vs extracted Coq Mech model (= Spec on the programs of wf_prog, theorem "
+                "cleanup_mech_refines_spec_partial) on the same skeleton program: stdout transcript, every CBV call-imbalance line and the "
+                "final CBV stacks depths must be equal for EVERY program; distinct = distinct skeletons (names, types, depth value included); "
+                "non-trivial = the transcript contains at least one constructor/destructor/defer event",
         "exhaustive": True,
         "exhaustive_space": "all programs main(+one callee) with <= %d statements, nesting <= %d over {object, defer, call, return, break, continue, "
-                            "block, if, loop(2)} without dead code (%d programs)" % (budget, depth, n_exh),
+                            "block, if, loop(2)} without dead code, naming discipline k mod 3 (%d programs); all callees f1 with <= %d statements, "
+                            "nesting <= %d incl. a guarded recursive call, sharing the variable name v0 with main, same and other struct type, "
+                            "depth value 2 (%d programs)" % (budget, depth, n_exh, rbudget, rdepth, n_rec),
         "input_distribution": hist,
+        "programs_in_proved_class_wf_prog": n_wf,
+        "programs_on_which_the_model_itself_shows_a_known_name_collision_defect": n_nonconf,
+        "programs_with_one_name_in_two_functions_same_struct_type": n_same,
+        "programs_with_one_name_in_two_functions_other_struct_type": n_diff,
+        "programs_with_named_objects_in_a_recursive_function": n_rec_names,
         "programs_by_formerly_defective_shape": shape_hist,
         "programs_on_which_the_code_before_the_fixes_misbehaved": n_old_defect,
         "avoided_known_findings": 0,
         "fuel_exhausted": n_fuel,
-        "samples": [{"prog": ser_prog(cases[j][0]), "sty": cases[j][1], "impl": impls[j], "spec_out": models[j]["spec"]["out"]}
-                    for j in (min(len(cases) - 1, n_exh // 2), len(cases) - len(NONWF) - 7)],
+        "samples": [{"prog": ser_prog(cases[j][0]), "sty": cases[j][1], "impl": impls[j], "spec_out": models[j]["spec"]["out"],
+                     "wf_prog": models[j]["wf"]}
+                    for j in (min(len(cases) - 1, n_exh // 2), len(load_cases(os.path.join(common.VERIF, "corpus", "c06.json"))) + n_exh + n_rec // 2,
+                              len(cases) - len(NONWF) - 7)],
     })
     for p, sty, m in inconsistent[:3]:
         rep.violation("model-consistency", {"prog": ser_prog(p), "sty": sty, "model": m},
-                      "extracted model contradicts theorem cleanup_mech_refines_spec on %s" % ser_prog(p), True)
+                      "extracted model contradicts theorem cleanup_mech_refines_spec_partial on %s" % ser_prog(p), True)
 
     def kind(i, sp):
         if sp["cls"] != i["cls"] or sp["out"] != i["out"]:
@@ -567,16 +848,17 @@ def run(rep):
 
     def rank(b):
         p, sty, o, m, i = b
-        return ({"transcript": 0, "stacks": 1, None: 2}[kind(i, m["spec"])], size(p))
+        return ({"transcript": 0, "stacks": 1, None: 2}[kind(i, m["spec"])], 0 if m["wf"] else 1, size(p))
     bad.sort(key=rank)
     rep.coverage["disagreements"] = len(bad)
     reported = set()
     for p, sty, o, m, i in bad[:4]:
         want = kind(i, m["spec"])
+        want_wf = m["wf"]
 
         def still_bad(q, s=sty):
             mm = run_models([q])[0]
-            if mm["fuel"]:
+            if mm["fuel"] or (want_wf and not mm["wf"]):
                 return False
             ii = run_impl(impl, q, s)
             if impl_matches_mech(ii, mm["mech"]):
@@ -588,17 +870,20 @@ def run(rep):
         if impl_matches_mech(ii, mm["mech"]):        # style-dependent: keep the original style
             s2 = sty
             ii = run_impl(impl, q, s2)
-        if (ser_prog(q), kind(ii, mm["spec"])) in reported:
+        rkey = (re.sub(r"(:|\bd|\bm)\d+", r"\1#", ser_prog(q)), kind(ii, mm["spec"]))    # same shape, other constants
+        if rkey in reported:
             continue
-        reported.add((ser_prog(q), kind(ii, mm["spec"])))
+        reported.add(rkey)
         spec_fail = kind(ii, mm["spec"]) is not None
         like_old = impl_matches_mech(ii, mm["pinned"])
-        verdict = ("implementation violates the structural cleanup order: expected %r with balanced stacks, got %r imb=%r depths=%r%s"
+        verdict = ("implementation violates the structural cleanup order: expected %r with balanced stacks, got %r imb=%r depths=%r%s%s"
                    % (mm["spec"]["out"], ii["out"], ii["imb"], ii["depths"],
-                      " - exactly the behaviour of the code before the fix commits (a repair was reverted?)" if like_old else "")) if spec_fail else \
+                      " - exactly the behaviour of the code before the fix commits (a repair was reverted?)" if like_old else "",
+                      "" if mm["wf"] else " (the program re-declares a live name: the proved model itself deviates from the Spec here, "
+                                          "known findings - but the implementation does not behave like the model either)")) if spec_fail else \
             "implementation agrees with the Spec on this input but not with the proved model"
         rep.violation("corr", {"prog": ser_prog(q), "sty": s2, "cb": to_cb(q, s2), "impl": ii, "mech": mm["mech"], "spec": mm["spec"],
-                               "formerly_defective_shapes": mm["shapes"], "origin": o,
+                               "wf_prog": mm["wf"], "formerly_defective_shapes": mm["shapes"], "origin": o,
                                "impl_equals_machine_before_fixes": like_old,
                                "broken": "correspondence Mech model = interpreter cleanup stacks (carrier of every C06 theorem)"},
                       "interpreter and proved cleanup model disagree on `%s` (%s)" % (ser_prog(q), verdict),
@@ -613,27 +898,66 @@ def run(rep):
                       "return g(): documented order (docs/spec.md:1634: defers, destructors, then evaluation of the "
                       "return operand) not observed or stacks unbalanced: got %r" % got)
 
-    # known findings still open (none at the moment): replay each stored input against the Spec
-    for f in common.known_findings(PROP):
-        p = parse_prog(f["replay"]["prog"])
-        sty = int(f["replay"].get("sty", 0))
-        m = run_models([p])[0]
-        i = run_impl(impl, p, sty)
-        if not impl_matches_spec(i, {"cls": "ok", "out": f["replay"]["expected"]["out"]}):
-            rep.known(f["id"], f["what_fails"])
+    # constructs outside the skeleton language: fixed text programs with the demanded transcript
+    extra_ok = 0
+    for name, cb, expected in EXTRA:
+        r = run_text(impl, cb)
+        if text_ok(r, expected):
+            extra_ok += 1
         else:
+            rep.violation("extra", {"name": name, "cb": PRELUDE + cb, "text": cb, "expected": expected, "impl": r},
+                          "%s: expected transcript %r with balanced stacks, got %r imb=%r depths=%r rc=%r"
+                          % (name, expected, r["out"], r["imb"], r["depths"], r["rc"]))
+    rep.coverage["fixed_text_programs_ok"] = "%d/%d" % (extra_ok, len(EXTRA))
+
+    # known findings: replay each stored input against the output the property demands
+    for f in common.known_findings(PROP):
+        rp = f["replay"]
+        if "text" in rp:
+            r = run_text(impl, rp["text"])
+            holds = text_ok(r, rp["expected"]["out"])
+            same = r["out"] == rp.get("observed", {}).get("out", r["out"])
+        else:
+            p = parse_prog(rp["prog"])
+            i = run_impl(impl, p, int(rp.get("sty", 0)))
+            holds = impl_matches_spec(i, {"cls": "ok", "out": rp["expected"]["out"]})
+            same = i["out"] == rp.get("observed", {}).get("out", i["out"])
+        if holds:
             rep.notes.append("known finding %s no longer reproduces (fixed?)" % f["id"])
+        else:
+            rep.known(f["id"], f["what_fails"])
+            if not same:
+                rep.notes.append("known finding %s reproduces with another transcript than recorded" % f["id"])
     rep.assumptions += [
         "the Mech model is tied to the C++ by differential testing (transcript + hook depths), not by proof",
-        "objects and defers have constant ids, return operands are constants, if/loop bodies are braced, no recursion, no yield",
-        "skeletons are printed to Cb text by the Python printer (for/while, void/int, call statement/initialiser chosen per case)",
+        "object/defer identities are k + 100 * n (n = depth parameter), return operands are constants, if/loop bodies are braced, "
+        "no struct parameters/copies, no yield",
+        "skeletons are printed to Cb text by the Python printer (for/while, void/int, call statement/initialiser, R through a typedef alias chosen per case)",
+        "Spec-level claims for generated programs rest on theorem cleanup_mech_refines_spec_partial only inside wf_prog; outside it the "
+        "model reproduces the recorded name-collision findings and only model = implementation is checked",
     ]
 
 
 def replay(path):
     data = json.load(open(path))
     c = data["case"]
+    impl = None
+    if "text" in c and "expected" in c:
+        impl = common.build_impl("plain")
+        r = run_text(impl, c["text"])
+        print(PRELUDE + c["text"])
+        print("impl:", r)
+        print("expected:", c["expected"])
+        ok = text_ok(r, c["expected"])
+        print("as demanded:", ok)
+        return 0 if ok else 1
     if "prog" not in c:
+        if "cb" in c and "expected" in c:
+            impl = common.build_impl("plain")
+            rc, o, e = common.run_cb(impl, c["cb"], env={"CB_VERIF_STACKS": "1"})
+            got = [l for l in o.split("\n") if l]
+            print(c["cb"]); print("impl:", got); print("expected:", c["expected"])
+            return 0 if got == c["expected"] and "call-imbalance" not in e else 1
         print(json.dumps(c, indent=1)[:4000])
         return 1
     common.ensure_model(PROP)
@@ -645,7 +969,7 @@ def replay(path):
     print(to_cb(p, sty))
     print("impl:", i)
     print("mech:", m["mech"])
-    print("spec:", m["spec"])
+    print("spec:", m["spec"], " wf_prog:", m["wf"])
     ok = impl_matches_mech(i, m["mech"])
     print("agree with model:", ok, " agree with spec:", impl_matches_spec(i, m["spec"]))
     return 0 if ok else 1
